@@ -307,7 +307,21 @@ def install_seam(seam):
 
         def stat(self, p):
             seam.point("stat", _base(p))
-            return real_os.stat(p)
+            st = real_os.stat(p)
+            # Every stamp the simulation writes lies near 1e9 (simulated clock).  A larger atime was put there by the kernel
+            # when the entry was read (wall-clock time, granularity of a scheduler tick): not simulated time, and it would
+            # make the eviction order depend on real timing.  Serve the last simulated stamp instead.
+            if st.st_atime > 1.5e9:
+                class _St:
+                    pass
+                r = _St()
+                for a in dir(st):
+                    if a.startswith("st_"):
+                        setattr(r, a, getattr(st, a))
+                r.st_atime = st.st_mtime
+                r.st_atime_ns = st.st_mtime_ns
+                return r
+            return st
 
         def unlink(self, p):
             seam.point("unlink", _base(p))
